@@ -19,8 +19,9 @@ ALPHABET = [
     'mov BYTE PTR [esi], cl', 'mov DWORD PTR [esi+4], ebx', 'mov eax, DWORD PTR [esi+2]', 'stosd', 'lodsb', 'movsb',
     # sub-register writes of a register holding a constant, under a symbolic flag (concatenation of constants and a conditional)
     'mov eax, 0x11223344', 'test ecx, ecx', 'sete ah', 'setne bl', 'cmovz ax, bx', 'adc ah, 0',
+    'mov ah, 0x55', 'mov al, bl',
 ]
-QUICK_ALPHABET = [0, 1, 3, 4, 11, 12, 13, 14, 15, 16, 17, 18, 19, 21, 22, 23, 24, 26, 30, 31, 32]
+QUICK_ALPHABET = [0, 1, 3, 4, 11, 12, 13, 14, 15, 16, 17, 18, 19, 21, 22, 23, 24, 26, 30, 31, 32, 36, 37]
 BASES = {'esp': 0x00100000, 'esi': 0x00200000, 'edi': 0x00300000}
 GPR = ['eax', 'ebx', 'ecx', 'edx', 'esi', 'edi', 'esp', 'ebp']
 FLAGNAMES = ['zf', 'nf', 'pf', 'of', 'cf', 'af', 'df']
@@ -297,12 +298,19 @@ def storeload_case(ctx, part, base, stores, load):
     return None
 
 
+ACC3_QUICK = [(0, 32), (4, 32), (2, 32), (2, 16), (1, 8), (0, 16), (4, 16), (3, 8)]
+
+
 def storeload_space(tier):
     acc = [(off, w) for w in (8, 16, 32) for off in range(8)]
     nst = (1, 2) if tier == 'quick' else (1, 2, 3)
     for base in ('const', 'sym'):
         for n in nst:
             for stores in itertools.product(acc, repeat=n):
+                for load in acc:
+                    yield base, stores, load
+        if tier == 'quick':         # three stores over a reduced store alphabet (a store that overlaps two earlier cells)
+            for stores in itertools.product(ACC3_QUICK, repeat=3):
                 for load in acc:
                     yield base, stores, load
 
@@ -466,7 +474,7 @@ def run(tier, seed):
             'symbolic base through eval_instr/eval_expr. (3) rep stosb/movsb/stosd/repe cmpsb/repne scasb with ecx 0..3, df 0/1 and concrete memory '
             'making the termination test fire at each position, against the architectural loop. states/transitions/traces are counted on the real code; '
             'every explored trace is replayed on the implementation (that replay is the check)' % (
-                len(ALPHABET), len(QUICK_ALPHABET), 3, '1..2' if tier == 'quick' else '1..3') + (' [thorough: depth 3 over the full alphabet and depth 4 over the quick alphabet]' if tier != 'quick' else ''))
+                len(ALPHABET), len(QUICK_ALPHABET), 3, '1..2 (+3 over 8 store shapes)' if tier == 'quick' else '1..3') + (' [thorough: depth 3 over the full alphabet and depth 4 over the quick alphabet]' if tier != 'quick' else ''))
     return core.finish('C07', tier, seed, t0, part, rule, level='model_checking', exhaustive=True,
                        assumptions=['the concrete machine interprets the SAME lifted IR (C04 is about the lifter); irsem semantics',
                                     'different symbolic bases are at least 1 MiB apart (the machine\'s no-alias assumption is granted)'])
